@@ -80,7 +80,7 @@ theorem fdt_run (rc : RxCfg) (s : SessCfg) (o : ObjCfg) (f : FdtCfg)
       (∀ p, p ∈ ps → p.toi = 0 → p.fdtId = f.id → Genuine (fdtObj s f) (toSym p) ∧ p.close = false) →
       Ev.fdt (f.files.contains o.toi) ∈ eventsFor cF.canDecode rc s o st ps ∨
         FInv cF s f ((fsyms f.id ps).reverse ++ P) (fdtState cF.canDecode rc s st ps) := by
-  have hfit : Fits { rc with maxSize := 1024 * 1024 } (fdtObj s f) :=
+  have hfit : Fits { rc with maxSize := 1024 * 1024, pktCap := none } (fdtObj s f) :=
     fits_of_noacct _ _ hlook rfl
   intro ps
   induction ps with
@@ -119,11 +119,11 @@ theorem fdt_run (rc : RxCfg) (s : SessCfg) (o : ObjCfg) (f : FdtCfg)
             simp only [fdtObj, fdtFresh]
             exact ⟨size_pos_of_nonempty _ hN, hfresh⟩
         have hstep : stepFdt cF.canDecode rc s st p =
-            fdtFinish st p.fdtId f (pushSym cF.canDecode { rc with maxSize := 1024 * 1024 } (fdtObj s f) (fdtLookup st p.fdtId) (toSym p)) := by
+            fdtFinish st p.fdtId f (pushSym cF.canDecode { rc with maxSize := 1024 * 1024, pktCap := none } (fdtObj s f) (fdtLookup st p.fdtId) (toSym p)) := by
           unfold stepFdt
           simp only [hcur, Bool.false_eq_true, ↓reduceIte, hfind', toSym]
         rw [hstep]
-        have hspec := pushCore_spec cF { rc with maxSize := 1024 * 1024 } (fdtObj s f) (fdtLookup st p.fdtId) (toSym p) P
+        have hspec := pushCore_spec cF { rc with maxSize := 1024 * 1024, pktCap := none } (fdtObj s f) (fdtLookup st p.fdtId) (toSym p) P
           (by simpa [fdtObj] using hN) hg hfit hrxinv.1 _ rfl
         rw [← pushSym_noclose cF _ _ (fdtLookup st p.fdtId) (toSym p) (by simpa [toSym] using hnc)] at hspec
         obtain ⟨h1, h2, _, h4⟩ := hspec
@@ -132,11 +132,11 @@ theorem fdt_run (rc : RxCfg) (s : SessCfg) (o : ObjCfg) (f : FdtCfg)
         · simp only [h1]
           obtain ⟨hc, ha⟩ := h4 h1
           have hnext : FInv cF s f (toSym p :: P)
-              { st with receiving := (p.fdtId, (pushSym cF.canDecode { rc with maxSize := 1024 * 1024 } (fdtObj s f) (fdtLookup st p.fdtId) (toSym p)).rx) :: st.receiving.filter (fun x => x.1 != p.fdtId) } := by
+              { st with receiving := (p.fdtId, (pushSym cF.canDecode { rc with maxSize := 1024 * 1024, pktCap := none } (fdtObj s f) (fdtLookup st p.fdtId) (toSym p)).rx) :: st.receiving.filter (fun x => x.1 != p.fdtId) } := by
             refine ⟨?_, hinv.2⟩
-            have : (((p.fdtId, (pushSym cF.canDecode { rc with maxSize := 1024 * 1024 } (fdtObj s f) (fdtLookup st p.fdtId) (toSym p)).rx) ::
+            have : (((p.fdtId, (pushSym cF.canDecode { rc with maxSize := 1024 * 1024, pktCap := none } (fdtObj s f) (fdtLookup st p.fdtId) (toSym p)).rx) ::
                 st.receiving.filter (fun x => x.1 != p.fdtId)).find? (fun x => x.1 == f.id)) =
-                some (p.fdtId, (pushSym cF.canDecode { rc with maxSize := 1024 * 1024 } (fdtObj s f) (fdtLookup st p.fdtId) (toSym p)).rx) := by
+                some (p.fdtId, (pushSym cF.canDecode { rc with maxSize := 1024 * 1024, pktCap := none } (fdtObj s f) (fdtLookup st p.fdtId) (toSym p)).rx) := by
               rw [List.find?_cons_of_pos]; simp [hid]
             simp only [this]
             exact ⟨hc, ha hrxinv.2.1, by rw [h2.1]; exact hrxinv.2.2⟩
